@@ -6,7 +6,7 @@ V=$(cd "$(dirname "$0")/.." && pwd)
 d=$V/.work/dev.$fam.$$
 mkdir -p $d && cp $V/specs/lib/*.tla $V/specs/$fam/*.tla $V/specs/$fam/*.cfg $d/ 2>/dev/null
 cd $d
-timeout ${TLC_TIMEOUT:-1800} java -XX:+UseParallelGC -Xmx${TLC_XMX:-12g} -Xss64m -cp /opt/veriftools/tla/tla2tools.jar:/opt/veriftools/tla/CommunityModules-deps.jar tlc2.TLC -workers $w -metadir $d/meta -config $cfg.cfg -noGenerateSpecTE "$@" $mod.tla 2>&1 | grep -v "^Semantic processing\|^Linting of\|^Parsing file"
+timeout ${TLC_TIMEOUT:-1800} java -Djava.io.tmpdir=$d -XX:+UseParallelGC -Xmx${TLC_XMX:-12g} -Xss64m -cp /opt/veriftools/tla/tla2tools.jar:/opt/veriftools/tla/CommunityModules-deps.jar tlc2.TLC -workers $w -metadir $d/meta -config $cfg.cfg -noGenerateSpecTE "$@" $mod.tla 2>&1 | grep -v "^Semantic processing\|^Linting of\|^Parsing file"
 rc=$?
 [ -n "$KEEP" ] && echo "kept $d" || rm -rf $d
 exit $rc
